@@ -366,8 +366,11 @@ class World:
         except Exception as e:  # noqa: BLE001
             raise Violation("transform-raised", "C09", idx, f"move(own vertex) raised {type(e).__name__}")
         self.stats.inc("fault:alias_arg:fired")
-        allowed = {n}
+        # the object whose vertex is passed as the vector is an argument of the call
+        allowed = {n, src}
         self._check_bystanders(idx, allowed, "move(alias)")
+        if src != n:
+            self._check_operand_region(idx, src, "move(alias) [owner of the vector]")
         post = model.value(o.live)
         pred = model.model_move(pre, vx, vy)
         ok, why = model.close_values(post, pred, 1e-12)
@@ -545,7 +548,9 @@ class World:
         if exp["kind"] == "ratio" and prev[0] == "num" and ans[0] == "num":
             ratio = ops.num(exp["ratio"])
             a0, a1 = prev[2], ans[2]
-            if all(isinstance(x, (int, Fraction)) for x in (a0, a1, ratio)):
+            vnow = self.slots[step["a"]].V
+            rounded = (not isinstance(vnow, str)) and kernel.max_denominator(model.value(self.slots[step["a"]].live)) > 10**7
+            if all(isinstance(x, (int, Fraction)) for x in (a0, a1, ratio)) and not rounded:
                 ok = a1 == a0 * ratio
             else:
                 want = float(a0) * float(ratio)
@@ -648,6 +653,12 @@ class World:
                 if not tol.curved or T2_CURVED_BINARY:
                     binary_t2 = True
             self.stats.inc(f"position:{pos}")
+        if binary_t2 and len(names) == 2 and names[0] != names[1]:
+            la, lb = model.value(self.slots[names[0]].live), model.value(self.slots[names[1]].live)
+            if not isinstance(la, str) and not isinstance(lb, str) and kernel.live_near_degenerate(la, lb):
+                # a crossing in the tolerance band next to a vertex left by an earlier split (KF4)
+                binary_t2 = False
+                self.stats.inc("probe:t2_skipped_live_near_degenerate")
         extent = max([0.0] + [abs(float(c)) for v in vals for c in kernel.coords_of(v)])
         if extent > LARGE and not exact:
             binary_t2 = False
@@ -662,7 +673,7 @@ class World:
             return False  # depend on the representation by design: T1 only
         if binary:
             # force_t2 is set only by the witness histories of listed known findings
-            return regime["binary_t2"] or bool(step.get("force_t2"))
+            return regime["binary_t2"] or bool(step.get("force_t2"))  # (witness histories force it)
         tol = regime["tol"]
         if op == "box" and tol is not None and tol.curved:
             return False
